@@ -520,6 +520,8 @@ func RunCrash(c *core.Ctx) {
 		h.Destroy()
 	}
 
+	_, straceErr := exec.LookPath("strace")
+	haveStrace := straceErr == nil
 	m := model.NewDB() // state of all acknowledged operations
 	start := 0
 	nkills := 0
@@ -545,8 +547,12 @@ func RunCrash(c *core.Ctx) {
 					break
 				}
 			}
-			switch r.Intn(10) {
-			case 0, 1, 2:
+			switch k := r.Intn(10); {
+			case k <= 1:
+				mode = "timed"
+			case k == 2 && backend == BBolt && haveStrace:
+				mode = "syscall" // die at the entry of the N-th pwrite64 of some thread: inside bbolt's commit
+			case k == 2:
 				mode = "timed"
 			default:
 				mode = "store-call"
@@ -569,7 +575,7 @@ func RunCrash(c *core.Ctx) {
 		}
 		os.Remove(ackPath)
 		be := backend
-		if mode == "timed" {
+		if mode == "timed" || mode == "syscall" {
 			be = rawBackend // the default opening path, no monitor
 		}
 		args := []string{"crashchild", "-dir", dbdir, "-backend", be, "-seed", fmt.Sprint(seed), "-start", fmt.Sprint(start), "-ack", ackPath}
@@ -579,6 +585,12 @@ func RunCrash(c *core.Ctx) {
 			args = append(args, "-killop", "-1")
 		}
 		cmd := exec.Command(self, args...)
+		if mode == "syscall" {
+			nth := 1 + r.Intn(24)
+			sargs := append([]string{"-f", "-qq", "-o", "/dev/null", "-e", "trace=pwrite64", "-e", fmt.Sprintf("inject=pwrite64:signal=SIGKILL:when=%d", nth), self}, args...)
+			cmd = exec.Command("strace", sargs...)
+			killCall = nth
+		}
 		logf, _ := os.Create(filepath.Join(base, "child.log"))
 		cmd.Stdout, cmd.Stderr = logf, logf
 		if err := cmd.Start(); err != nil {
@@ -682,7 +694,10 @@ func RunCrash(c *core.Ctx) {
 			return
 		}
 		if killed {
-			phase := "timed"
+			phase := mode
+			if mode == "syscall" {
+				phase = "inside-commit(pwrite64)"
+			}
 			if mode == "store-call" {
 				tr := traces[killOp]
 				if killCall > len(tr) {
